@@ -86,34 +86,10 @@ def rounds(x: float):
     return [int(np.rint(x))]
 
 
-def body(ctx: Ctx, p: dict) -> None:
-    from pandora import validation
-
-    H, W, off, dmin, dmax = p["H"], p["W"], p["off"], p["dmin"], p["dmax"]
-    thr = float(p["thr"])
-    dl = build.arr(p["left"]["d"])
-    dr = build.arr(p["right"]["d"])
-    vl = np.array(p["left"]["m"], dtype=np.uint16)
-    vr = np.array(p["right"]["m"], dtype=np.uint16)
-    left = build.disparity_dataset(dl, vl, dmin, dmax, off)
-    right = build.disparity_dataset(dr, vr, -dmax, -dmin, off)
-    right_before = build.snapshot(right)
-    val = validation.AbstractValidation(validation_method="cross_checking_accurate", cross_checking_threshold=p["thr"])
-    out = val.disparity_checking(left, right)
-
-    vm = out["validity_mask"].data.astype(int)
-    if not np.array_equal(out["disparity_map"].data, dl, equal_nan=True):
-        ctx.violation("C07/left-disparity-modified", "disparity_map of the checked dataset changed")
-    d = build.snapshot_diff(right_before, build.snapshot(right))
-    if d:
-        ctx.violation("C07/other-dataset-modified", f"the reference (right) dataset changed: {d}")
-    names = list(out.coords["indicator"].data) if "confidence_measure" in out else []
-    if "confidence_from_left_right_consistency" not in names:
-        ctx.violation("C07/confidence-band-missing", f"indicators={names}")
-        conf = None
-    else:
-        conf = out["confidence_measure"].sel(indicator="confidence_from_left_right_consistency").data
-
+def judge(ctx: Ctx, dl, vl, dr, vm, conf, dmin, dmax, thr, off, tag=""):
+    """per-pixel oracle.  dl/vl: checked map and its mask before; dr: the other map; vm: mask after; conf: band or None.
+    Returns counters (consistent, mismatch, occlusion, outside, half, nan_right)."""
+    H, W = dl.shape
     n_cons = n_mis = n_occ = n_out = n_half = n_nan_right = 0
     for r in range(H):
         for c in range(W):
@@ -203,6 +179,37 @@ def body(ctx: Ctx, p: dict) -> None:
                 if not ok:
                     ctx.violation("C07/confidence-band-wrong", f"pixel {(r, c)} band={got} expected one of {expect_conf}")
 
+    return n_cons, n_mis, n_occ, n_out, n_half, n_nan_right
+
+
+def body(ctx: Ctx, p: dict) -> None:
+    from pandora import validation
+
+    H, W, off, dmin, dmax = p["H"], p["W"], p["off"], p["dmin"], p["dmax"]
+    thr = float(p["thr"])
+    dl = build.arr(p["left"]["d"])
+    dr = build.arr(p["right"]["d"])
+    vl = np.array(p["left"]["m"], dtype=np.uint16)
+    vr = np.array(p["right"]["m"], dtype=np.uint16)
+    left = build.disparity_dataset(dl, vl, dmin, dmax, off)
+    right = build.disparity_dataset(dr, vr, -dmax, -dmin, off)
+    right_before = build.snapshot(right)
+    val = validation.AbstractValidation(validation_method="cross_checking_accurate", cross_checking_threshold=p["thr"])
+    out = val.disparity_checking(left, right)
+
+    vm = out["validity_mask"].data.astype(int)
+    if not np.array_equal(out["disparity_map"].data, dl, equal_nan=True):
+        ctx.violation("C07/left-disparity-modified", "disparity_map of the checked dataset changed")
+    d = build.snapshot_diff(right_before, build.snapshot(right))
+    if d:
+        ctx.violation("C07/other-dataset-modified", f"the reference (right) dataset changed: {d}")
+    names = list(out.coords["indicator"].data) if "confidence_measure" in out else []
+    if "confidence_from_left_right_consistency" not in names:
+        ctx.violation("C07/confidence-band-missing", f"indicators={names}")
+        conf = None
+    else:
+        conf = out["confidence_measure"].sel(indicator="confidence_from_left_right_consistency").data
+    n_cons, n_mis, n_occ, n_out, n_half, n_nan_right = judge(ctx, dl, vl, dr, vm, conf, dmin, dmax, thr, off)
     classes = []
     if n_out:
         classes.append("correspondent-outside")
@@ -215,6 +222,64 @@ def body(ctx: Ctx, p: dict) -> None:
     ctx.case(p, nontrivial=bool(n_cons and n_mis and n_occ), classes=classes)
 
 
+# ---------------------------------------------------------------------------------------------------------------
+# pipeline twin: the states a real pipeline hands to the validation step, judged by the same oracle
+# ---------------------------------------------------------------------------------------------------------------
+@st.composite
+def pipeline_cases(draw):
+    from .. import gen
+
+    pair = draw(gen.image_pair(min_rows=7, max_rows=12, min_cols=10, max_cols=18, max_val=9, masks=True))
+    steps = draw(gen.legal_pipeline(validation=True, fill=False, repeat_validation=True, max_post=4))
+    a = draw(st.integers(-4, 1))
+    return {"pair": pair, "pipeline": steps, "disp": [a, a + draw(st.integers(0, 4))]}
+
+
+def pipeline_body(ctx: Ctx, p: dict) -> None:
+    from .. import drive, gen
+
+    kw = gen.pair_kwargs(p["pair"])
+    pipe = gen.pipe_dict(p["pipeline"])
+    caps = []
+
+    def before(machine, step, kind):
+        if kind == "validation":
+            caps.append({"step": step, "dl": machine.left_disparity["disparity_map"].data.copy(),
+                         "vl": machine.left_disparity["validity_mask"].data.copy(),
+                         "dr": machine.right_disparity["disparity_map"].data.copy(),
+                         "vr": machine.right_disparity["validity_mask"].data.copy(),
+                         "iv": [int(x) for x in machine.left_disparity["disparity_interval"].data],
+                         "off": int(machine.left_disparity.attrs["offset_row_col"])})
+
+    def after(machine, step, kind):
+        if kind == "validation":
+            c = caps[-1]
+            c["vl_a"] = machine.left_disparity["validity_mask"].data.astype(int)
+            c["vr_a"] = machine.right_disparity["validity_mask"].data.astype(int)
+            c["cl"] = machine.left_disparity["confidence_measure"].sel(indicator="confidence_from_left_right_consistency").data
+            c["dl_a"] = machine.left_disparity["disparity_map"].data.copy()
+            c["dr_a"] = machine.right_disparity["disparity_map"].data.copy()
+
+    drive.run_pipeline(pipeline=pipe, disp=tuple(p["disp"]), spy=drive.Spy(before=before, after=after), **kw)
+    tot = [0] * 6
+    for c in caps:
+        thr = float(pipe[c["step"]].get("cross_checking_threshold", 1.0))
+        a, b = c["iv"]
+        if not np.array_equal(c["dl"], c["dl_a"], equal_nan=True) or not np.array_equal(c["dr"], c["dr_a"], equal_nan=True):
+            ctx.violation("C07/left-disparity-modified", f"step {c['step']} changed a disparity map")
+        conf = c["cl"]
+        if conf.ndim == 3:  # a repeated validation step appends a second band of the same name
+            conf = conf[:, :, -1]
+        res = judge(ctx, c["dl"], c["vl"], c["dr"], c["vl_a"], conf, a, b, thr, c["off"], c["step"])
+        tot = [x + y for x, y in zip(tot, res)]
+        # the right map is checked against the left one by the same rule
+        res = judge(ctx, c["dr"], c["vr"], c["dl"], c["vr_a"], None, -b, -a, thr, c["off"], c["step"] + "/right")
+        tot = [x + y for x, y in zip(tot, res)]
+    ctx.case(p, nontrivial=bool(tot[0] and tot[1] and tot[2]), classes=[f"validations={len(caps)}"] +
+             (["half"] if tot[4] else []) + (["outside"] if tot[3] else []))
+
+
 CHECKS = [
     Check("direct", body, strategy=cases, budget={"quick": (8, 150), "thorough": (16, 4000)}),
+    Check("pipeline", pipeline_body, strategy=pipeline_cases, budget={"quick": (8, 20), "thorough": (16, 500)}),
 ]
